@@ -24,8 +24,6 @@ func runDoc(t *testing.T, name string, root *Node) fw.Result {
 
 // Probes of hand-written documents (development aid and regression of the oracle's corrections).
 func TestProbes(t *testing.T) {
-	os.Setenv("C09_GUARD", "off")
-	defer os.Unsetenv("C09_GUARD")
 	b := newBuilder()
 
 	// anonymous cell inherits the colspan attribute of a row element
